@@ -74,6 +74,8 @@ fn letter() -> impl Parser<StringView, Output = char, Error = ParserError> {
     any_token_of!(TokenType::Identifier).and_then(|token| {
         token
             .try_as_single_char()
+            // letters are not case sensitive, so that the range a-Z is valid
+            .map(|ch| ch.to_ascii_uppercase())
             .ok_or(ParserError::expected("letter").to_fatal())
     })
 }
